@@ -19,6 +19,7 @@ import (
 	"os"
 	"strconv"
 	"strings"
+	"sync"
 	"sync/atomic"
 	"time"
 
@@ -699,7 +700,32 @@ func run(t *Trans, wd time.Duration) (o outcome) {
 	return
 }
 
-var nTainted, nAbsenceRetry, nUnconfirmed int64
+var nTainted, nAbsenceRetry, nUnconfirmed, nBlocked int64
+
+var (
+	confMu    sync.Mutex
+	confirmed = map[string]int{} // blocked:* signatures confirmed by a slow re-execution
+)
+
+func blockedSigs(o *outcome) (sigs []string) {
+	for _, d := range o.diffs {
+		if strings.HasPrefix(d.sig, "blocked:") {
+			sigs = append(sigs, d.sig)
+		}
+	}
+	return
+}
+
+func allConfirmed(sigs []string) bool {
+	confMu.Lock()
+	defer confMu.Unlock()
+	for _, s := range sigs {
+		if confirmed[s] < 3 {
+			return false
+		}
+	}
+	return len(sigs) > 0
+}
 
 func one(js []byte) {
 	var t Trans
@@ -711,15 +737,30 @@ func one(js []byte) {
 	if len(t.Pre) > 0 {
 		atomic.AddInt64(&rep.NonTriv, 1)
 	}
-	o := run(&t, *watchdog)
+	wd := *watchdog
+	if atomic.LoadInt64(&nBlocked) >= 100 {
+		wd /= 4 // blocking calls are an established fact of this run: do not spend the budget waiting for them
+	}
+	o := run(&t, wd)
 	if o.absence {
-		// absence-type observation (a call did not return in time): only believed if it repeats with a long watchdog
-		atomic.AddInt64(&nAbsenceRetry, 1)
-		o2 := run(&t, *slowdog)
-		if !o2.absence {
-			atomic.AddInt64(&nUnconfirmed, 1)
+		// absence-type observation (a call did not return in time): only believed if it repeats with a long watchdog;
+		// once the same signature has been confirmed three times and 200 re-executions were spent, it is taken as is
+		if atomic.LoadInt64(&nAbsenceRetry) < 200 || !allConfirmed(blockedSigs(&o)) {
+			atomic.AddInt64(&nAbsenceRetry, 1)
+			o2 := run(&t, *slowdog)
+			if !o2.absence {
+				atomic.AddInt64(&nUnconfirmed, 1)
+			}
+			confMu.Lock()
+			for _, s := range blockedSigs(&o2) {
+				confirmed[s]++
+			}
+			confMu.Unlock()
+			o = o2
 		}
-		o = o2
+		if len(blockedSigs(&o)) > 0 {
+			atomic.AddInt64(&nBlocked, 1)
+		}
 	}
 	if *verbose {
 		for _, l := range o.trace {
